@@ -470,6 +470,25 @@ func checkFields(r *ev.Run, c *dcase, obj any) {
 		if lib.V3Ver(obj) != c.verLabel {
 			r.Violate(ev.Violation{Kind: "version-field", Case: c.m(), Observed: lib.V3Ver(obj), Expected: c.verLabel})
 		}
+		// writing X explicitly is indistinguishable from omitting the metric: decode the twin with
+		// every omitted temporal/environmental metric of the level written as X
+		twin := copyTok(c.tok)
+		omitted := 0
+		for _, m := range spec.UpTo(3, c.level) {
+			if _, ok := twin[m.Name]; !ok && m.Level > 0 {
+				twin[m.Name] = m.NDCode()
+				omitted++
+			}
+		}
+		if omitted > 0 {
+			ts := canonicalWritten(3, c.level, c.verLabel, twin)
+			to, err, pan := lib.DecodeNew(3, c.level, ts)
+			if err != nil || pan != "" || to == nil {
+				r.Violate(ev.Violation{Kind: "explicit-X-twin-not-decoded", Case: with(c.m(), "twin", ts), Observed: fmt.Sprintf("err=%v panic=%q", err, pan), Expected: "accepted"})
+			} else if a, b := observables(obj), observables(to); a != b {
+				r.Violate(ev.Violation{Kind: "explicit-X-differs-from-omitted", Case: with(c.m(), "twin", ts), Observed: a, Expected: b + "  (the same vector with the omitted metrics written as X)"})
+			}
+		}
 	} else {
 		for lv := 1; lv <= c.level; lv++ {
 			if got, want := lib.IsEmpty(obj, lv), !lang.GroupPresent(c.tok, lv); got != want {
